@@ -36,6 +36,7 @@ def run(facts, rep, tier):
     rep.trusted = ["rustc MIR (dev profile: overflow checks and debug assertions on)", "std/chrono model table sq/absint/models.py",
                    "single reader thread (C18 R18.6): lock poisoning unreachable"]
     rep.rule("R01.1", "every panic/overflow obligation reached by any context is definitely safe", "P")
+    rep.rule("R01.4", "no lock is requested while a guard of the same lock is alive (no self-deadlock)", "P")
     rep.rule("R01.2", "call graph acyclic; every reachable loop iterates a finite source", "P")
     rep.rule("R01.3", "file source: loop ends only at EOF / I/O error; main returns the thread's result", "P")
 
@@ -90,6 +91,7 @@ def run(facts, rep, tier):
                     "accepted": not r.diverged})
     _termination(facts, rep)
     _eof(facts, rep)
+    _locks(facts, rep)
     if e2_broken and not rep.findings:
         raise Broken(e2_broken[0])
     for m in sorted(set(x.split(": ", 1)[-1] for x in e2_broken))[:3]:
@@ -293,6 +295,24 @@ def _termination(facts, rep):
         rep.oblige(ok, "tcp dispatch")
         if not ok:
             rep.add(Finding("R01.2", "%s : TCP loop not guarded by tcp.is_empty()" % r, "the endless reconnect loop is not confined to the --tcp source", b.loc()))
+
+
+def _locks(facts, rep):
+    """R01.4: std locks are not re-entrant - requesting a lock whose guard the same thread still holds wedges the decoder"""
+    from .. import locks
+    summ = locks.summaries(facts)
+    n = 0
+    for name, b in sorted(facts.bodies.items()):
+        if b.kind == "promoted" or "::tests::" in name:
+            continue
+        k, fs = locks.check_body(facts, b, summ)
+        n += k
+        for bb, what, loc in fs:
+            rep.oblige(False, ("lock", name, bb))
+            rep.add(Finding("R01.4", "%s : %s" % (name, what.split(" while ")[0]),
+                            "%s: %s - std::sync locks are not re-entrant, the thread blocks forever (no panic, no output)" % (name, what), loc))
+    rep.oblige(True, ("locks-examined",))
+    rep.instances("R01.4", n, floor=4, what="lock requests followed through the may-hold dataflow")
 
 
 def _read_count_loop(b, cfg, du, h, blks):
